@@ -212,6 +212,36 @@ def uninit_apis(an, rep, extra_crates=(), crate=None):
     return R
 
 
+def unbounded_lifetimes(an, rep, crate=None):
+    R = rep.rule("U7", "no function has a lifetime parameter that occurs in its return type but in none of its argument types "
+                       "and no where-clause (an unbounded lifetime: the caller may choose 'static, so a reference handed out "
+                       "through it outlives whatever it points into)")
+    import re
+    core = crate or an.core()
+    n = 0
+    for b in sorted(core.bodies.values(), key=lambda b: b.key):
+        sig = b.raw.get("sig")
+        if not sig or b.test:
+            continue
+        n += 1
+        for lt in sig["lifetimes"]:
+            rx = re.compile(re.escape(lt) + r"(?![A-Za-z0-9_])")
+            in_out = bool(rx.search(sig["output"]))
+            in_args = any(rx.search(i) for i in sig["inputs"])
+            in_preds = any(rx.search(p) for p in b.preds)
+            if in_out:
+                R.check(in_args or in_preds, b.key, "lifetime " + lt, "lifetime %s occurs only in the return type %s: it is not "
+                        "tied to any argument" % (lt, sig["output"][:80]), mir.loc(b, 0),
+                        sample={"fn": b.key, "lifetime": lt, "bounded_by": "argument" if in_args else "where clause"})
+    if crate is None:
+        R.floor("function signatures inspected", n, 200)
+        refs = [b for b in core.bodies.values() if b.raw.get("sig") and not b.test and "&" in b.raw["sig"]["output"]]
+        R.floor("functions returning references", len(refs), 10)
+        for b in refs:
+            R.ok()
+    return R
+
+
 def raw_provenance(an, rep):
     R = rep.rule("U4", "every struct field that stores a raw pointer later dereferenced into a returned reference is "
                        "written only by functions that are `unsafe fn` or take the pointee by ownership / 'static borrow "
